@@ -229,7 +229,7 @@ def _hit(ck: Checker) -> None:
             e = t.ast
             if not (t.kind == "test" and isinstance(e, ast.Compare) and len(e.ops) == 1):
                 return False
-            left = " ".join(norm(a) for a in value_alts(g, t, e.left, depth=2))
+            left = " ".join(norm(a) for a in value_alts(g, t, e.left, depth=2)) if t.id >= 0 else norm(e.left)
             if "version" not in left.lower():
                 return False
             op, r = e.ops[0], e.comparators[0]
@@ -249,7 +249,10 @@ def _hit(ck: Checker) -> None:
             w1 = cut(g, [h.id], token_equal, start=start)
             ck.require(w1 is None, "C13.hit", fn, h, "a hit requires stored token == token of the file's current stat record",
                        "a cached hash can be returned although the stored token was not compared equal to the current one", witness=g.fmt_path(w1) if w1 else None, construct=f"{h.text()} / token")
-            w2 = cut(g, [h.id], version_ok, start=start)
+            from ..an import with_flags as _wf
+
+            lifted_v = _wf(g, version_ok, start=start)
+            w2 = cut(g, [h.id], lambda t, lab: version_ok(t, lab) or lifted_v(t, lab), start=start)
             ck.require(w2 is None, "C13.hit", fn, h, "a hit requires the row's version to be absent (legacy) or not newer than HASH_VERSION",
                        "a row written by a newer format version can be returned as a hit", witness=g.fmt_path(w2) if w2 else None, construct=f"{h.text()} / version")
     reader_names = {r.name for r in readers}
@@ -454,7 +457,8 @@ def _update(ck: Checker) -> None:
                    f"the carry-over diff restricts the comparison with meta_cmp_key={norm(kw['meta_cmp_key']) if 'meta_cmp_key' in kw else '**kwargs'}: a file replaced with identical listed fields but a different inode/mtime/size keeps its old hash",
                    construct="diff(... no meta_cmp_key)")
         ck.require("hash_only" not in kw, "C13.update", fn, c, "not hash_only", "hash_only diff cannot justify carrying a hash over", construct="diff(... no hash_only)")
-        a0, a1 = (c.args + [None, None])[:2]
+        a0 = c.args[0] if len(c.args) > 0 else kw.get("old")
+        a1 = c.args[1] if len(c.args) > 1 else kw.get("new")
         ck.require(a0 is not None and a1 is not None and norm(a0) == "old" and norm(a1) == "new", "C13.update", fn, c, "diff(old, new)", "diff arguments are not (old, new)", construct="diff(old, new)")
     # _diff_meta: without cmp_key compares the Meta objects by equality
     dm = prog.func("index.diff", "_diff_meta")
